@@ -195,7 +195,14 @@ func (c *Controller) Go(id int, f func()) {
 
 // Enter registers the calling goroutine as worker id and parks it at "start"
 // (for goroutines the harness does not create itself, e.g. timer callbacks).
-// The goroutine must call Exit (deferred) before it ends.
+// The goroutine must call Exit before it ends; write
+//
+//	defer c.Exit()
+//	c.Enter(id)
+//
+// in this order, because a killed worker leaves Enter through runtime.Goexit.
+// Choose id deterministically (e.g. a counter advanced where the goroutine is
+// created, not where it starts running).
 func (c *Controller) Enter(id int) {
 	w := c.register(id, goid())
 	c.park(w, "start", 0)
